@@ -1,7 +1,7 @@
 """C12 - Metadata codecs decode what they encode and honour the schema (structural clauses)."""
 from __future__ import annotations
 
-from . import lib_codec, lib_py, lib_kind, lib_kind3
+from . import lib_codec, lib_py, lib_kind, lib_kind3, lib_kind4
 
 LEVEL = "other"
 EXPLANATION = ("Sibling agreement of the struct codec's encode/decode factories (dispatch, formats, defaults, variant order), "
@@ -21,6 +21,7 @@ def run(ctx):
     lib_py.unused_params(ctx, py, mods=("metadata",), only=scopes.py_scope("C12"))
     lib_kind.py_lints(ctx, py, mods=("metadata",), only=scopes.py_scope("C12"))
     lib_kind3.shared_instance_escape(ctx, py)
+    lib_kind4.validation_bypass(ctx, py)
     # the interchange of metadata / schema bytes through dicts (asdict, pickle, copy): guards written in the glue
     P = ctx.program()
     lib_kind.length_guard(ctx, P, lambda k, f: f.startswith("write_") or f.startswith("parse_") or "metadata" in f, tus=["module"])
